@@ -261,6 +261,10 @@ class _Marshaller:
     def dump_string(self, x):
         # XXX we can't check for interned strings, yet,
         # so we (for now) never create TYPE_INTERNED or TYPE_STRINGREF
+        if PYTHON3 and isinstance(x, str):
+            # A Python 2 str that the unmarshaller turned into text because
+            # its bytes are UTF-8; those bytes are what gets written.
+            x = x.encode("utf-8")
         self._write(TYPE_STRING)
         self.w_long(len(x))
         self._write(x)
